@@ -358,3 +358,23 @@ def refused_edits(tg, rng):
                 tg.replaceTier(n0, t0.new(name=[x for x in names if x != n0][0]), "silence")
         except Exception:
             pass
+
+
+def renamed_elsewhere(tg, rng):
+    """The caller put one of *tg*'s tier objects into a second textgrid as well (a selection for export) and renamed it THERE.  In
+    *tg* nothing was renamed: its names, and the names its tiers carry, are what they were - that is the state the call under test
+    starts from."""
+    from praatio.data_classes.textgrid import Textgrid
+
+    names = list(tg.tierNames)
+    if not names:
+        return
+    try:
+        with core.paused():
+            other = Textgrid()
+            t = tg.getTier(rng.choice(names))
+            other.addTier(t, reportingMode="silence")
+            other.renameTier(t.name, t.name + "_elsewhere")
+        REC.cls("tier-shared-with-another-textgrid-and-renamed-there")
+    except Exception:
+        pass
